@@ -448,9 +448,9 @@ func c12SchedMain(e *Env) {
 		return b.String()
 	}
 	cases := []c12SchedMainCase{
-		{"syllable", "C", "C[1] G[1]", -1, nil, "", ""},
-		{"degree", "", "1[1] R[1]", -1, nil, "", ""},
-		{"syllable", "C", "C[1] 2[1]", -1, nil, "", ""},
+		{"syllable", "C", "C[1] G[1]", 5, nil, "", ""},
+		{"degree", "", "1[1] R[1]", 5, nil, "", ""},
+		{"syllable", "C", "C[1] 2[1]", 5, nil, "", ""},
 		{"syllable", "C", "C[1] G_7/B[1]{key=G} D[1]", 3, nil, "", ""},
 		{"syllable", "Eb", prog(12, 5), 2, nil, "", ""},
 		// long texts: bound 0 still explores every choice at blocking points (which worker runs first), for free
@@ -458,6 +458,7 @@ func c12SchedMain(e *Env) {
 		{"degree", "", strings.Repeat("1[1] 5_7/3[2]{bpm=90} R[1] ", 90), 0, nil, "", ""},
 	}
 	if e.Thorough {
+		cases[0].Bound = -1
 		cases[3].Bound = 5
 		cases[4].Bound = 3
 		cases[5].Bound = 1
@@ -482,7 +483,11 @@ func c12SchedMain(e *Env) {
 	mc.ParFor(len(cases), func(i int) {
 		c := cases[i]
 		ctx, cancel := context.WithTimeout(context.Background(), 20*time.Minute)
-		cmd := exec.CommandContext(ctx, bin, fmt.Sprint(c.Bound), "3000000", c.Mode, c.Key, c.Text)
+		maxExec := "400000"
+		if e.Thorough {
+			maxExec = "3000000"
+		}
+		cmd := exec.CommandContext(ctx, bin, fmt.Sprint(c.Bound), maxExec, c.Mode, c.Key, c.Text)
 		cmd.Env = append(os.Environ(), "VERIF_SCHED=1", "GOMAXPROCS=4")
 		out, err := cmd.Output()
 		timedOut := ctx.Err() == context.DeadlineExceeded
@@ -537,7 +542,7 @@ func c12SchedMain(e *Env) {
 	if execs == 0 && exh {
 		panic("C12 harness: the text-conv schedule exploration ran no execution")
 	}
-	e.R.AddPart(ev.Part{Name: "schedules-text-conv", Enumerated: fmt.Sprintf("the whole `text conv` path (parseText, classification, conversion, marshalling) driven from inside package main under the cooperative scheduler (%d synchronisation sites rewritten in %v): all interleavings for 3-chord texts, preemption-bounded for 12, 270 and 300+ chord texts with key changes (more than 256 chords, so that chunked/parallel conversion would engage); every schedule must give the bytes and verdict of the default schedule, no deadlock, no panic", res.Points, res.Rewritten), Executions: execs, States: int64(len(cases)), Transitions: execs, Exhaustive: exh, Note: strings.Join(notes, " | ")})
+	e.R.AddPart(ev.Part{Name: "schedules-text-conv", Enumerated: fmt.Sprintf("the whole `text conv` path (parseText, classification, conversion, marshalling) driven from inside package main under the cooperative scheduler (%d synchronisation sites rewritten in %v): <= 5 preemptions (all interleavings in thorough) for 2-chord texts, preemption-bounded for 3, 14, 270 and 300+ chord texts with key changes (more than 256 chords, so that chunked/parallel conversion would engage); every schedule must give the bytes and verdict of the default schedule, no deadlock, no panic", res.Points, res.Rewritten), Executions: execs, States: int64(len(cases)), Transitions: execs, Exhaustive: exh, Note: strings.Join(notes, " | ")})
 }
 
 func runC12(e *Env) {
@@ -689,7 +694,11 @@ func runC12(e *Env) {
 		mc.ParFor(len(trees), func(i int) {
 			t := trees[i]
 			ctx, cancel := context.WithTimeout(context.Background(), 20*time.Minute)
-			cmd := exec.CommandContext(ctx, sbin, fmt.Sprint(t.bound), "20000000", t.text)
+			maxExec := "1000000"
+			if e.Thorough {
+				maxExec = "20000000"
+			}
+			cmd := exec.CommandContext(ctx, sbin, fmt.Sprint(t.bound), maxExec, t.text)
 			cmd.Env = append(os.Environ(), "GOMAXPROCS=2")
 			out, err := cmd.Output()
 			timedOut := ctx.Err() == context.DeadlineExceeded
